@@ -9,9 +9,17 @@ RULE = ("requests: Bernoulli::new(p).sample and Random::chance(p) for p in every
 ASSUMPTIONS = []
 
 
+def chance_op(r):
+    import struct
+    b = lambda x: struct.unpack("<Q", struct.pack("<d", x))[0]
+    return "chance:%d" % r.choice([b(1.0), b(0.0), b(-0.0), 0x7FF8000000000000, b(2.5), b(-1.0), b(float("inf")), b(0.5), b(1 / 3), b(1 - 2.0 ** -53), b(2.0 ** -30), b(0.999), r.u64() >> 2])
+
+
 def generate(r, tier, build):
     k = 1 if tier == "quick" else 30
-    return G.bern_requests(r, 4000 * k)
+    from . import gen_chacha as GC
+    # the same entry point on a REAL block generator at every kind of buffer position (the scripted stream above always goes through `Mock`)
+    return G.bern_requests(r, 4000 * k) + GC.dist_histories(r, 250 * k, chance_op)
 
 
 def corpus(build):
@@ -20,10 +28,22 @@ def corpus(build):
 
 
 def classify(req, model):
-    return "bern"
+    return "chacha" if req.startswith("chacha") else "bern"
 
 
 def oracle(req, impl, build):
+    if req.startswith("chacha"):
+        # the extremes hold for every generator stream: p >= 1 true; p <= 0 and NaN false
+        import struct
+        ops, toks = req.split("ops=")[1].split(","), impl.split()
+        for i, (op, t) in enumerate(zip(ops, toks)):
+            if op.startswith("chance:") and t in ("0", "1"):
+                p = struct.unpack("<d", struct.pack("<Q", int(op[7:])))[0]
+                if p >= 1 and t != "1":
+                    return "op %d: chance(%r) on ChaCha returned false" % (i, p)
+                if (p <= 0 or p != p) and t != "0":
+                    return "op %d: chance(%r) on ChaCha returned true" % (i, p)
+        return None
     return O.bern_oracle(req, impl)
 
 
